@@ -59,6 +59,9 @@ type env struct {
 	pingFirst atomic.Bool
 	// firstOp: "" | "observe" | "write-con": the handler's first blocking operation
 	firstOp atomic.Value
+	// dropDeletes: the connection's request monitor refuses every DELETE (it never reaches the queue)
+	dropDeletes atomic.Bool
+	injectAll   func(ms []ref.Msg)
 }
 
 func newEnv(kind string, queue int, ownMIDStart ...int) *env {
@@ -125,6 +128,9 @@ func newEnv(kind string, queue int, ownMIDStart ...int) *env {
 		cc = sim.NewUDPConn(s, sim.UDPOpts{
 			Mutate: func(cfg *udpclient.Config) {
 				cfg.ReceivedMessageQueueSize = queue
+				cfg.RequestMonitor = func(_ *udpclient.Conn, r *pool.Message) (bool, error) {
+					return e.dropDeletes.Load() && r.Code() == codes.DELETE, nil
+				}
 				cfg.GetMID = func() int32 { return int32((ownStart + 0xffff/2) & 0xffff) }
 				cfg.ProcessReceivedMessage = func(req *pool.Message, c *udpclient.Conn, h config.HandlerFunc[*udpclient.Conn]) {
 					e.mu.Lock()
@@ -139,6 +145,11 @@ func newEnv(kind string, queue int, ownMIDStart ...int) *env {
 			},
 		})
 		e.inject = func(m ref.Msg) { _ = cc.Process(nil, ref.EncodeUDP(m)) }
+		e.injectAll = func(ms []ref.Msg) {
+			for _, m := range ms {
+				_ = cc.Process(nil, ref.EncodeUDP(m))
+			}
+		}
 		e.sent = func() []ref.Msg {
 			var out []ref.Msg
 			for _, d := range s.Log() {
@@ -195,6 +206,9 @@ func newEnv(kind string, queue int, ownMIDStart ...int) *env {
 		cc, err := sim.NewTCPConn(sc, sim.TCPOpts{
 			Mutate: func(cfg *tcpclient.Config) {
 				cfg.ReceivedMessageQueueSize = queue
+				cfg.RequestMonitor = func(_ *tcpclient.Conn, r *pool.Message) (bool, error) {
+					return e.dropDeletes.Load() && r.Code() == codes.DELETE, nil
+				}
 				cfg.ProcessReceivedMessage = func(req *pool.Message, c *tcpclient.Conn, h config.HandlerFunc[*tcpclient.Conn]) {
 					e.mu.Lock()
 					e.processed[req.Sequence()]++
@@ -211,6 +225,13 @@ func newEnv(kind string, queue int, ownMIDStart ...int) *env {
 			panic(err)
 		}
 		e.inject = func(m ref.Msg) { sc.Feed(ref.EncodeTCP(m)) }
+		e.injectAll = func(ms []ref.Msg) {
+			var b []byte
+			for _, m := range ms {
+				b = append(b, ref.EncodeTCP(m)...)
+			}
+			sc.Feed(b) // one segment: everything arrives with one read
+		}
 		e.sent = func() []ref.Msg { ms, _ := ref.ParseTCPStream(sc.Written()); return ms }
 		e.get = func(ctx context.Context, path string) ([]byte, error) {
 			resp, err := cc.Get(ctx, path)
@@ -433,6 +454,55 @@ func pureServer(rec *vr.Rec, c ccase, rnd *rand.Rand) {
 		}
 	}
 	rec.Count("messages_processed_in_order", int64(c.N))
+}
+
+// refusedThenPipelined: a message the request monitor refuses is the monitor's business; the messages that arrived with it
+// - on a stream, in the same segment, behind it - were accepted from the network and must each reach the handler once,
+// in order, without the peer having to send anything more.
+func refusedThenPipelined(rec *vr.Rec, kind string, queue int, rnd *rand.Rand) {
+	e := newEnv(kind, queue)
+	defer e.closef()
+	e.dropDeletes.Store(true)
+	var ms []ref.Msg
+	var ids []string
+	n := 3 + rnd.Intn(10)
+	refused := 0
+	for i := 0; i < n; i++ {
+		if rnd.Intn(3) == 0 || i == 1 {
+			d := e.request(fmt.Sprintf("refused%d", i), rnd.Intn(2) == 0)
+			d.Code = 4 // DELETE
+			ms = append(ms, d)
+			refused++
+			continue
+		}
+		id := fmt.Sprintf("p%d", i)
+		ids = append(ids, id)
+		ms = append(ms, e.request(id, rnd.Intn(2) == 0))
+	}
+	c := map[string]any{"scenario": "request monitor refuses some messages of one burst", "transport": kind, "messages": n, "refused": refused, "queue": queue}
+	e.injectAll(ms)
+	ok := sim.WaitFor(8*time.Second, func() bool { e.mu.Lock(); defer e.mu.Unlock(); return len(e.entered) >= len(ids) })
+	time.Sleep(300 * time.Microsecond)
+	e.mu.Lock()
+	defer e.mu.Unlock()
+	rec.Count("bursts_with_refused_messages_"+kind, 1)
+	if !ok {
+		rec.Violation("C11/"+kind+"/refused-message/later-messages-not-dispatched", fmt.Sprintf("%d of the %d accepted requests of the burst reached the handler within 8 s; the peer sends nothing more (handler saw %v)", len(e.entered), len(ids), e.entered), c)
+		return
+	}
+	for i, id := range ids {
+		if i >= len(e.entered) || e.entered[i] != id {
+			rec.Violation("C11/"+kind+"/refused-message/out-of-order", fmt.Sprintf("handler saw %v, accepted arrival order %v", e.entered, ids), c)
+			return
+		}
+	}
+	for id, k := range e.runs {
+		if k != 1 || strings.HasPrefix(id, "refused") {
+			rec.Violation("C11/"+kind+"/refused-message/processed-twice-or-refused-one-processed", fmt.Sprintf("request %s handled %d times", id, k), c)
+			return
+		}
+	}
+	rec.Count("messages_behind_a_refused_one_processed", int64(len(ids)))
 }
 
 // nested: requests whose handlers block in nested requests to depth d, external callers,
@@ -690,6 +760,12 @@ func TestRun(t *testing.T) {
 		}(w)
 	}
 	wg.Wait()
+	rr := rand.New(rand.NewSource(seed*29 + 5))
+	for i := 0; i < vr.Scale(40, 600) && rec.NViolations() <= 3; i++ {
+		kind := []string{"tcp", "udp"}[i%2]
+		refusedThenPipelined(rec, kind, []int{1, 2, 16}[i%3], rr)
+		rec.Eval(fmt.Sprintf("refused-burst|%s|%d", kind, i))
+	}
 	rec.Count("reader_hook_point_hits", hookHits.Load())
 	rec.Assume("arrival order is asserted only in pure-server workloads (no client call runs on the connection, so the reader loop is never replaced)")
 	rec.Assume("liveness is bounded progress: after the peer has delivered every awaited response, all blocking calls must return within a 15 s watchdog; a firing watchdog is a violation only if a goroutine is parked in doInternal/waitForAcknowledge, otherwise inconclusive")
